@@ -64,7 +64,8 @@ type Grammar struct {
 	// PrecSpelling selects how precedence levels are written (the order of
 	// the values is the order of the levels in every spelling):
 	// 0 plain 1,2,3..; 1 leading zeros and a step over a power of the octal
-	// base (9, 010, 011, 012 ..); 2 wide gaps (1, 20, 300, 4000 ..).
+	// base (9, 010, 011, 012 ..); 2 wide gaps (1, 20, 300, 4000 ..); 3 and 4
+	// steps of three across 2^8 and 2^16.
 	PrecSpelling int
 }
 
@@ -139,6 +140,12 @@ func (g *Grammar) PrecText(p int) string {
 		return fmt.Sprintf("0%d", p+8)
 	case 2:
 		return fmt.Sprint(p) + strings.Repeat("0", p-1)
+	case 3:
+		// around 2^8: 253, 256, 259, ..
+		return fmt.Sprint(250 + 3*p)
+	case 4:
+		// around 2^16: 65533, 65536, 65539, ..
+		return fmt.Sprint(65530 + 3*p)
 	}
 	return fmt.Sprint(p)
 }
